@@ -538,12 +538,9 @@ def bucket(message):
 
 
 def region(case, message):
-    """Open known-finding regions (narrow; none suppresses unless listed as open in known_findings.json)."""
-    b = bucket(message)
-    if b is None:
-        return None
-    inv, op, path = b
-    events = path.split("+")
+    """Open known-finding regions.  None is proposed: every defect this property exposed so far got a fix (see
+    notes/C10.md).  A future entry should key on the bucket -- (violated invariant, last op, corrective events) -- e.g.
+    ``inv == "rel" and "uninvert" in path.split("+")`` -- never on anything wider."""
     return None
 
 
@@ -733,10 +730,6 @@ def _short_ops(draw):
     tail = draw(st.lists(st.one_of(_queries(), _validate_op(), _ik_op(kinds=("in",)), _fk_op(kinds=("pose",))),
                          min_size=1, max_size=3))
     return ops + tail
-
-
-def region_short(case, message):
-    return region(case, message)
 
 
 CLAUSES = [
